@@ -2,6 +2,10 @@ import Xp.Proofs.C20Ex
 import Xp.Proofs.C20Peer
 import Xp.Proofs.C20World
 import Xp.Gen.C20Init
+import Xp.Gen.C20Skel
+import Xp.Model.C20Skel
+import Xp.Proofs.C20Src
+import Xp.Proofs.C20Parsed
 /-
 C20 property theorems: initialisation is idempotent and never duplicates or
 clobbers existing state. Statements only; the lemmas live in Xp/Proofs/C20*.lean.
@@ -37,6 +41,107 @@ theorem init_skeleton_matches : initSkeleton = Xp.Gen.c20InitSkeleton := by rfl
 
 /-- initializer.DNSNamesForService, probed on the current tree. -/
 theorem dns_names_for_service_matches : dnsNamesForService "svc" "ns" = Xp.Gen.c20DnsProbe := by decide
+
+/-! ### regenerated call skeletons: every Go function the model mirrors still has the modelled calls
+
+Left: extracted with go/ast from the current tree on every run (harness/main/c20_skel.go). Right: declared in
+Model/C20Skel.lean, every entry with the model step that mirrors it. -/
+
+theorem skeleton_init : Xp.Gen.c20SkelInit = skelInit := by decide
+theorem skeleton_step_func_run : Xp.Gen.c20SkelStepFuncRun = skelStepFuncRun := by decide
+theorem skeleton_tls_run : Xp.Gen.c20SkelTlsRun = skelTlsRun := by decide
+theorem skeleton_load_or_generate_ca : Xp.Gen.c20SkelLoadOrGenerateCA = skelLoadOrGenerateCA := by decide
+theorem skeleton_ensure_server_certificate : Xp.Gen.c20SkelEnsureServer = skelEnsureLeaf := by decide
+/-- the client certificate goes the same way as the server certificate (one model function `ensureLeaf`) -/
+theorem skeleton_ensure_client_certificate : Xp.Gen.c20SkelEnsureClient = skelEnsureLeaf := by decide
+theorem skeleton_parse_certificate_signer : Xp.Gen.c20SkelParseSigner = skelParseSigner := by decide
+/-- CertGenerator.Generate (the real generator) is what `stdGen` mirrors … -/
+theorem skeleton_generate : Xp.Gen.c20SkelGenerate = skelGenerate := by decide
+/-- … it signs the certificate asked for, for the fresh key, with the signer's key (`Generator.Sound`) … -/
+theorem skeleton_create_certificate_args : Xp.Gen.c20CreateCertificateArgs = createCertificateArgs := by decide
+/-- … and tls.go asks it for a self-signed CA named crossplane-root-ca, resp. for non-CA certificates with the
+configured server / client names signed by the signer that was loaded or generated -/
+theorem skeleton_generator_calls :
+    Xp.Gen.c20GenCallCA = genCallCA ∧ Xp.Gen.c20GenCallServer = genCallServer ∧ Xp.Gen.c20GenCallClient = genCallClient := by decide
+/-- the generator these lists describe meets the assumption every certificate theorem makes of its generator -/
+theorem cert_generator_model_sound : stdGen.Sound := by
+  refine ⟨?_, ?_, ?_⟩
+  · intro dns ca sg n kp c h
+    cases sg with
+    | none => simp [stdGen] at h; obtain ⟨rfl, rfl⟩ := h; exact ⟨rfl, rfl, rfl⟩
+    | some sg =>
+      simp only [stdGen] at h
+      split at h
+      · simp at h; obtain ⟨rfl, rfl⟩ := h; exact ⟨rfl, rfl, rfl⟩
+      · cases h
+  · intro dns ca n kp c h
+    simp [stdGen] at h; obtain ⟨rfl, rfl⟩ := h; rfl
+  · intro dns ca sg n kp c h
+    simp only [stdGen] at h
+    split at h
+    · rename_i hk
+      simp at h; obtain ⟨rfl, rfl⟩ := h; exact ⟨rfl, hk⟩
+    · cases h
+theorem skeleton_apply : Xp.Gen.c20SkelApply = skelApply := by decide
+theorem skeleton_crds_run : Xp.Gen.c20SkelCrdsRun = skelCrdsRun := by decide
+theorem skeleton_webhook_configurations_run : Xp.Gen.c20SkelWhcsRun = skelWhcsRun := by decide
+theorem skeleton_migrator_run : Xp.Gen.c20SkelMigratorRun = skelMigratorRun := by decide
+theorem skeleton_lock_run : Xp.Gen.c20SkelLockRun = skelLockRun := by decide
+theorem skeleton_store_config_run : Xp.Gen.c20SkelStoreConfigRun = skelCreateIfAbsent := by decide
+theorem skeleton_deployment_runtime_config : Xp.Gen.c20SkelDrcRun = skelCreateIfAbsent := by decide
+/-- the only error class the two create-if-absent steps tolerate is AlreadyExists -/
+theorem skeleton_ignored_errors : Xp.Gen.c20IgnoredErrors = ignoredErrors := by decide
+theorem skeleton_installer_run : Xp.Gen.c20SkelInstallerRun = skelInstallerRun := by decide
+theorem skeleton_build_pack : Xp.Gen.c20SkelBuildPack = skelBuildPack := by decide
+theorem skeleton_parse_package_source : Xp.Gen.c20SkelParseSource = skelParseSource := by decide
+theorem skeleton_to_dns_label : Xp.Gen.c20SkelToDNSLabel = skelToDNSLabel := by decide
+
+/-! #### the API calls of the declared skeletons are the request sequences of the model's own programs
+
+`pathVerbs pre reply fuel p` lists the client verbs of the requests program `p` issues when every call is answered
+by `reply` (`replyAbsent`: nothing exists; `replyPresent old`: everything exists, empty); `apiOnly pre l` keeps the
+client calls of a declared skeleton. Create and Update / Patch are the two branches after the same Get. -/
+
+/-- CoreCRDsMigrator.Run: Get, List, Patch (per resource), Status().Patch, Get – the whole of `migrateStep` -/
+theorem skeleton_migrator_from_model :
+    apiOnly "kube." skelMigratorRun
+      = pathVerbs "kube." (replyPresent "v1alpha1") 9 (migrateStep "locks.pkg.crossplane.io" "v1alpha1") := by decide
+
+/-- loadOrGenerateCA: Get + Create (no secret) and Get + Update (incomplete secret) of `loadOrGenerateCA` -/
+theorem skeleton_load_or_generate_ca_from_model :
+    apiOnly "kube." skelLoadOrGenerateCA
+      = pathVerbs "kube." replyAbsent 9 (loadOrGenerateCA stdGen "ca" 7)
+        ++ (pathVerbs "kube." (replyPresent "") 9 (loadOrGenerateCA stdGen "ca" 7)).drop 1 := by decide
+
+/-- ensureServerCertificate / ensureClientCertificate: Get + Create and Get + Update of `ensureLeaf` -/
+theorem skeleton_ensure_leaf_from_model :
+    apiOnly "kube." skelEnsureLeaf
+      = pathVerbs "kube." replyAbsent 9 (ensureLeaf stdGen ⟨"tls", ["svc"]⟩ ⟨7, ⟨7, 7, [], true⟩⟩ 8)
+        ++ (pathVerbs "kube." (replyPresent "") 9 (ensureLeaf stdGen ⟨"tls", ["svc"]⟩ ⟨7, ⟨7, 7, [], true⟩⟩ 8)).drop 1 := by decide
+
+/-- APIPatchingApplicator.Apply: [the nameless-object Create,] Get + Create and Get + Patch – the same for the four
+users `applyCrd`, `applyWhc`, `applyPkg`, `lockStep` -/
+theorem skeleton_apply_from_model :
+    let viaCrd := fun reply => pathVerbs "client." reply 9 (applyCrd ⟨"c", 1, [("v1", true)], false⟩ .empty)
+    let viaWhc := fun reply => pathVerbs "client." reply 9 (applyWhc ⟨.validating, "w", ["h"]⟩ .empty ⟨"s", "ns", 1⟩)
+    let viaPkg := fun reply => pathVerbs "client." reply 9 (applyPkg .provider ("p", ⟨"", "a/b", "", false, "a/b", "a/b"⟩))
+    let viaLock := fun reply => pathVerbs "client." reply 9 lockStep
+    ∀ via ∈ [viaCrd, viaWhc, viaPkg, viaLock],
+      apiOnly "client." skelApply = "client.Create" :: (via replyAbsent ++ (via (replyPresent "")).drop 1) := by decide
+
+/-- StoreConfigObject.Run / DefaultDeploymentRuntimeConfig: the one Create of `createIfAbsent` -/
+theorem skeleton_create_if_absent_from_model :
+    apiOnly "kube." skelCreateIfAbsent = pathVerbs "kube." replyAbsent 9 (scStep "ns") ∧
+    apiOnly "kube." skelCreateIfAbsent = pathVerbs "kube." replyAbsent 9 drcStep := by decide
+
+/-- PackageInstaller.Run: the three Lists of `installWith` (the applies are `skeleton_apply_from_model`) -/
+theorem skeleton_installer_from_model :
+    apiOnly "kube." skelInstallerRun = pathVerbs "kube." replyAbsent 9 (installStep [] [] []) := by decide
+
+/-- CoreCRDs.Run / WebhookConfigurations.Run: the Get of the webhook TLS secret (`getBundle`), first -/
+theorem skeleton_bundle_from_model :
+    apiOnly "kube." skelCrdsRun = pathVerbs "kube." replyAbsent 9 (crdsStep (some "tls") ⟨false, []⟩) ∧
+    apiOnly "kube." skelWhcsRun = pathVerbs "kube." replyAbsent 9 (whcsStep "tls" ⟨"s", "ns", 1⟩ ⟨false, []⟩) := by decide
 
 /-! ### existing TLS material is kept (for every fault plan, over every history of runs) -/
 
@@ -118,6 +223,99 @@ theorem no_second_package_fails_on_unfixed_witness :
   simp [s] at hq0
   subst hq0
   simp at hn
+
+/-! #### the package source (xpkg.ParsePackageSourceFromReference) is `[host/]path`: inside the model
+
+`Ref.src` is no longer an input: the driver computes it with `parseSource` (the Go function's string logic over
+ref.String(), the reference as written) and the observation compares it with the real function for every image
+and every installed package. `Written` = the parts of a reference as written, `[host/]path[:tag][@digest]`. -/
+
+/-- **The source is the reference without its identifier, nothing else changed** – with a tag, a digest, both or
+neither, with or without a registry host, with or without a port (D14 lived here: a tag survived next to a digest). -/
+theorem parse_source_strips_identifier (w : Written) (h : w.WF) :
+    parseSource (String.ofList w.chars) = String.ofList w.repoChars := by
+  simp [parseSource, parseSourceChars_written w h]
+
+/-- Same host and same repository path as written – any tags, any digests – same source … -/
+theorem same_repository_same_source (w w' : Written) (h : w.WF) (h' : w'.WF) (hh : w.host = w'.host) (hp : w.path = w'.path) :
+    parseSource (String.ofList w.chars) = parseSource (String.ofList w'.chars) := by
+  simp [parseSource, parseSourceChars_same_repository w w' h h' hh hp]
+
+/-- … and only then: the source determines host and path. -/
+theorem same_source_same_repository (w w' : Written) (h : w.WF) (h' : w'.WF)
+    (he : parseSource (String.ofList w.chars) = parseSource (String.ofList w'.chars)) : w.repoChars = w'.repoChars := by
+  simp only [parseSource, String.toList_ofList] at he
+  exact parseSourceChars_injective w w' h h' (String.ofList_injective he)
+
+/-- **No second package, over the reference as written**: a requested image whose host and repository path – whatever
+its tag and / or digest, and whatever theirs – are those of a listed package is applied to the object name of a
+listed package of that source: under any object name, for any registry host, for every reference form. -/
+theorem no_second_package_for_any_reference_form (pl : List Pkg) (r r' : Ref) (w w' : Written) (q : Pkg)
+    (hq : q ∈ pl) (hqr : q.ref = some r')
+    (hs : r.src = parseSource r.str) (hs' : r'.src = parseSource r'.str)
+    (hw : r.str = String.ofList w.chars) (hw' : r'.str = String.ofList w'.chars)
+    (h : w.WF) (h' : w'.WF) (hh : w.host = w'.host) (hp : w.path = w'.path) :
+    ∃ q ∈ pl, (∃ r'', q.ref = some r'' ∧ r''.src = r.src) ∧ resolve (buildIndex pl) r = q.name :=
+  requested_image_resolves_to_installed_name pl r
+    ⟨q, hq, r', hqr, by rw [hs, hs', hw, hw']; exact same_repository_same_source w' w h' h hh.symm hp.symm⟩
+
+/-- … and over the whole run, at every instant, under every fault plan: every package in the store whose reference –
+as written: any host, any tag and / or digest – names a repository that a package of that kind named at the start
+(again: whatever its tag / digest) has the object name of a package that existed at the start. -/
+theorem no_second_package_written (plan : Plan) (k : Nat) (s : Store) (p c f : List Img) :
+    ∀ x ∈ reach sem plan k (installStep p c f) s,
+      ∀ q ∈ x.pkgs, ∀ r, q.ref = some r → r.src = parseSource r.str →
+        ∀ w : Written, w.WF → r.str = String.ofList w.chars →
+        (∃ q' ∈ s.pkgs, q'.kind = q.kind ∧ ∃ r', ∃ w' : Written, q'.ref = some r' ∧ r'.src = parseSource r'.str ∧ w'.WF ∧
+            r'.str = String.ofList w'.chars ∧ w'.host = w.host ∧ w'.path = w.path) →
+        ∃ q0 ∈ s.pkgs, q0.kind = q.kind ∧ q0.name = q.name := by
+  intro x hx q hq r hr hs w hw hstr ⟨q', hq', hk, r', w', hr', hs', hw', hstr', hh, hp⟩
+  exact no_second_package plan k s p c f x hx q hq r hr
+    ⟨q', hq', hk, r', hr', by rw [hs, hs', hstr, hstr']; exact same_repository_same_source w' w hw' hw hh hp⟩
+
+/-- The hypothesis `r.src = parseSource r.str` (`Ref.Parsed`) of the theorems above is an invariant of the installer:
+it holds of every package in the store at every instant of its run, under every fault plan, if it holds of the
+packages the run starts from and of the requested images (the driver builds both that way: `refOf`). -/
+theorem package_sources_stay_parsed (plan : Plan) (k : Nat) (s : Store) (p c f : List Img)
+    (hs : ParsedStore s) (hp : ParsedImgs p) (hc : ParsedImgs c) (hf : ParsedImgs f) :
+    ∀ x ∈ reach sem plan k (installStep p c f) s, ParsedStore x :=
+  installStep_parsed plan k s p c f hs hp hc hf
+
+/-- non-vacuity: `a/b:v1@s:0` installed, `a/b` requested, sources computed -/
+example :
+    let r' : Ref := ⟨"", "a/b", "s:0", true, String.ofList ['a','/','b',':','v','1','@','s',':','0'], String.ofList ['a','/','b']⟩
+    let r : Ref := ⟨"", "a/b", "latest", false, String.ofList ['a','/','b'], String.ofList ['a','/','b']⟩
+    ParsedStore { (default : Store) with pkgs := [⟨.provider, "mine", r'.str, some r', 3⟩] } ∧ ParsedImgs [⟨r.str, some r⟩] := by
+  refine ⟨?_, ?_⟩
+  · intro q hq r hr
+    simp at hq; subst hq; simp at hr; subst hr
+    simp only [Ref.Parsed, parseSource, String.toList_ofList]
+    exact congrArg String.ofList (by decide)
+  · intro i hi r hr
+    simp at hi; subst hi; simp at hr; subst hr
+    simp only [Ref.Parsed, parseSource, String.toList_ofList]
+    exact congrArg String.ofList (by decide)
+
+/-- D14 (repaired by fixes/D14.diff, which `parseSource` mirrors): the function as found at the pinned commit keeps
+the tag of a reference that carries a tag and a digest (`a/b:v1@s:0`, identifier = the digest `s:0`), and trims the
+default identifier off an untagged repository that ends in it (`a/latest`, identifier `latest`) – in both cases the
+source differs from the one of the same repository written without identifier. -/
+theorem parse_source_fails_on_unfixed_witness :
+    parseSourceCharsDefective ['a','/','b',':','v','1','@','s',':','0'] ['s',':','0'] ≠ parseSourceCharsDefective ['a','/','b'] ['l','a','t','e','s','t'] ∧
+    parseSourceChars ['a','/','b',':','v','1','@','s',':','0'] = parseSourceChars ['a','/','b'] ∧
+    parseSourceCharsDefective ['a','/','l','a','t','e','s','t'] ['l','a','t','e','s','t'] ≠ ['a','/','l','a','t','e','s','t'] ∧
+    parseSourceChars ['a','/','l','a','t','e','s','t'] = ['a','/','l','a','t','e','s','t'] := by decide
+
+/-- non-vacuity: `r.io:5/x/aws:v1@sha:0a` (port, tag AND digest) installed and `r.io:5/x/aws` (no identifier)
+requested – both well-formed, sources computed -/
+example :
+    let host := ['r','.','i','o',':','5']
+    let path := ['x','/','a','w','s']
+    let w' : Written := ⟨host, path, some ['v','1'], some ['s','h','a',':','0','a']⟩
+    let w : Written := ⟨host, path, none, none⟩
+    w.WF ∧ w'.WF ∧ parseSourceChars w'.chars = host ++ '/' :: path ∧ parseSourceChars w.chars = host ++ '/' :: path := by
+  refine ⟨⟨by decide, by decide, by decide, by decide, by intro t ht; cases ht⟩,
+    ⟨by decide, by decide, by decide, by decide, by intro t ht; cases ht; decide⟩, by decide, by decide⟩
 
 /-! ### newly issued certificates chain to the stored CA and cover the DNS names -/
 
